@@ -2358,7 +2358,15 @@ evhttp_get_body_length(struct evhttp_request *req)
 		req->ntoread = -1;
 	} else {
 		char *endp;
-		ev_int64_t ntoread = evutil_strtoll(content_length, &endp, 10);
+		ev_int64_t ntoread;
+		struct evkeyval *header;
+		/* several Content-Length fields must all agree */
+		TAILQ_FOREACH(header, headers, next) {
+			if (!evutil_ascii_strcasecmp(header->key, "Content-Length") &&
+			    strcmp(header->value, content_length) != 0)
+				return (-1);
+		}
+		ntoread = evutil_strtoll(content_length, &endp, 10);
 		if (*content_length == '\0' || *endp != '\0' || ntoread < 0) {
 			event_debug(("%s: illegal content length: %s",
 				__func__, content_length));
